@@ -526,13 +526,19 @@ def ledLoop (inp : Input) (pe : Nat → PState → Except PErr (PNode × PState)
       ledLoop inp pe n rbp lhs' p2
     else .ok (lhs, p)
 
+/-- jparse.go `tokenType.opensOperand`: a token in prefix position after which an operand must follow (an
+    opening bracket, unary minus, the opening pipe of a transform); a slash after it starts a regular expression -/
+def opensOperand : Tok → Bool
+  | .parenOpen | .bracketOpen | .braceOpen | .minus | .pipe => true
+  | _ => false
+
 /-- parser.parseExpression -/
 def parseExpr (inp : Input) : Nat → Nat → PState → Except PErr (PNode × PState)
   | 0, _, p => .error (tokErr "fuel" p.tok)
   | fuel + 1, rbp, p => do
     if p.tok.type == .eof then .error (tokErr "ErrUnexpectedEOF" p.tok)
     let t := p.tok
-    let p1 ← advance inp false p
+    let p1 ← advance inp (opensOperand t.type) p
     let (lhs, p2) ← nud inp (parseExpr inp fuel) t p1
     ledLoop inp (parseExpr inp fuel) (inp.size + 2) rbp lhs p2
 
